@@ -87,6 +87,7 @@ pub fn replay_other(prop: &str, doc: &serde_json::Value, path: &std::path::PathB
     let ok = match doc["engine"].as_str() {
         Some("c19") => tables::replay_c19(&mut ctx, &v["case"]),
         Some("c09") => tables::replay_c09(&mut ctx, &v["case"]),
+        Some("c09reg") => tables::replay_c09reg(&mut ctx, &v["case"]),
         Some("c16") => ports::replay_c16(&v["case"]),
         Some("c17") => timer::replay_c17(&v["case"]),
         Some("c10") => irq::replay_c10(&v["case"]),
@@ -95,6 +96,7 @@ pub fn replay_other(prop: &str, doc: &serde_json::Value, path: &std::path::PathB
         Some("c14") => mes::replay_c14(&v["case"]),
         Some("elf") => elf::replay_elf(&v["case"]),
         Some("c15") => nopanic::replay_c15(&v["case"]),
+        Some("c07run") => decode::replay_c07run(&v["case"]),
         other => {
             println!("no replay handler for engine {:?} (property {})", other, prop);
             return 2;
